@@ -30,6 +30,7 @@ GENERATORS = {
     "dd": fmtgen.gen_dd,
     "elf": fmtgen.gen_elf,
     "sadump": fmtgen.gen_sadump,
+    "lkcd": fmtgen.gen_lkcd,
 }
 
 
@@ -49,6 +50,13 @@ def make_case(run, fmt, idx, big=False):
             small = info["pgsz"] <= 8192
             reqs += fmtgen.elf_requests(run.rng, info, False, z, limit=30 if small else 8)
             reqs += fmtgen.elf_requests(run.rng, info, True, z, limit=20 if small else 5)
+        line = "1 %s F=%s L=%s I=%s %s" % (dump, fmt, fmtgen.lay_str(lay), img, " ".join(reqs))
+        info["image"] = img
+        info["dump"] = dump
+        return line, info
+    if fmt == "lkcd":
+        fmtgen.write_stream(img, info["pgsz"], entries)
+        reqs = fmtgen.lkcd_requests(run.rng, info)
         line = "1 %s F=%s L=%s I=%s %s" % (dump, fmt, fmtgen.lay_str(lay), img, " ".join(reqs))
         info["image"] = img
         info["dump"] = dump
@@ -94,6 +102,9 @@ def strip_reqs(line, keep):
 def minimise(line, idx):
     """Keep the geometry / zero-fill requests before request #idx and that request."""
     reqs = req_tokens(line)
+    if " F=lkcd " in line or " F=elf " in line:
+        # the answer may depend on what was asked before (lazy index, last-hit shortcuts)
+        return strip_reqs(line, set(range(idx + 1)))
     keep = {i for i in range(idx) if reqs[i] in ("Z0", "Z1")} | {idx}
     return strip_reqs(line, keep)
 
@@ -145,7 +156,7 @@ def check(run):
         compare(run, exe, [line], [{"key": "replay", "image": img, "pfns": []}], res)
         return
     plan = [("dd", 120 if quick else 4000), ("elf", 100 if quick else 6000),
-            ("sadump", 80 if quick else 3000)]
+            ("sadump", 80 if quick else 3000), ("lkcd", 100 if quick else 6000)]
     only = os.environ.get("VERIF_C01_FORMATS")
     if only:
         plan = [p for p in plan if p[0] in only.split(",")]
